@@ -70,4 +70,9 @@ ENTRIES.update({
             "text": "Every compiled pattern (19 on the current tree, incl. inline re.sub/re.match literals) is decided exactly: the product automaton has no strongly connected component with a diagonal and an off-diagonal pair. "
                     "The asn1 loops carry proved decreases clauses (C07); the filter scanners and receive are probed on ~100 adversarial families at two sizes (bounded)."},
 })
+ENTRIES["C19"] = {"category": "other", "technique": "frame / ownership conditions as syntactic obligations over the ASTs of all modules (one per function and class); bounded interleaving and registration scenarios as stand-in",
+                  "note": "Sound for code without reflection; the enum pseudo-member cache is declared benign; the step from frames to non-interference of arbitrary interleavings is the frame rule (paper argument).",
+                  "text": "618 obligations on the current tree: no function writes module-level or class-level state or uses a module-level mutable object other than read-only, no mutable defaults, LDAPSession/LDAPClient.__init__ create every "
+                          "mutable field in that activation, *Options objects have no hidden state and dispatchers never write to them, register_* appends to self._packing_options.<kind>.choices after the duplicate test. "
+                          "Bounded: 3 session groups x 63 interleavings with half-failing calls; custom filter/control/credential registered before and after first traffic versus an unregistered session."}
 NOT_APPLICABLE = {}
